@@ -660,6 +660,11 @@ Next:
         if (ASMJIT_UNLIKELY(Support::test(options, InstOptions::kX86_ZMask) && !common_info.has_avx512_z())) {
           return make_error(Error::kInvalidKZeroUse);
         }
+
+        // Zeroing-masking is not possible when the destination is memory (EVEX.z must be zero - #UD otherwise).
+        if (ASMJIT_UNLIKELY(op_count >= 1 && operands[0].is_mem())) {
+          return make_error(Error::kInvalidKZeroUse);
+        }
       }
 
       // Validate AVX-512 {sae} and {er}.
